@@ -271,7 +271,7 @@ pub fn run(ctx: &Ctx) -> (Stats, Spec) {
     let exact_max = ctx.tier.pick(10usize, 12usize);
     let rsbdd_max = ctx.tier.pick(6usize, 7usize);
     let mut sizes: Vec<(usize, bool, bool, u64)> = (1..=exact_max).map(|n| (n, true, n <= rsbdd_max, if n >= 4 { 2_000 } else { 0 })).collect();
-    let large: Vec<usize> = ctx.tier.pick(vec![10, 11, 12, 13, 16, 24, 31, 64, 100, 255, 256, 257], vec![12, 13, 14, 15, 16, 24, 32, 33, 64, 100, 128, 200, 255, 256, 257, 300, 400]);
+    let large: Vec<usize> = ctx.tier.pick(vec![10, 11, 12, 13, 16, 24, 31, 64, 100, 255, 256, 257, 316, 317, 320], vec![12, 13, 14, 15, 16, 24, 32, 33, 64, 100, 128, 200, 255, 256, 257, 300, 316, 317, 400, 999, 1000, 1001]);
     let probes = ctx.tier.pick(20_000u64, 400_000u64);
     for n in large {
         // a size that is already compared exactly only gets the larger probe budget (one job per size)
@@ -290,7 +290,7 @@ pub fn run(ctx: &Ctx) -> (Stats, Spec) {
     let mut st = crate::report::merge_all(parts);
     st.exhaustive.push(format!("exact model-set equality for every board size n = 1..{}", exact_max));
     let spec = Spec {
-        rule: "every board size n = 1..10 [quick] / 1..12 [thorough]: the real generator's output (stdout, and a file that already exists with longer content) is parsed by the reference grammar, its variable set must be v_0..v_(n^2-1), and ALL its models (three-valued propagation search) are compared as a set with an independent backtracking enumeration; rsbdd -t -ft cross-check for n <= 6 / 7; larger n incl. 255, 256, 257: variable set, attacking and non-attacking square pairs (all pairs when feasible, else sampled with a bias to shared lines), empty rows/columns, a constructed placement and near-misses. distinct = board size (exact) / board size (probed); every board size is a configuration.".into(),
+        rule: "every board size n = 1..10 [quick] / 1..12 [thorough]: the real generator's output (stdout, and a file that already exists with longer content) is parsed by the reference grammar, its variable set must be v_0..v_(n^2-1), and ALL its models (three-valued propagation search) are compared as a set with an independent backtracking enumeration; rsbdd -t -ft cross-check for n <= 6 / 7; larger n incl. 255, 256, 257 (16-bit boundary), 316, 317 (six-digit indices), thorough also 999-1001 (seven digits): variable set, attacking and non-attacking square pairs (all pairs when feasible, else sampled with a bias to shared lines), empty rows/columns, a constructed placement and near-misses. distinct = board size (exact) / board size (probed); every board size is a configuration.".into(),
         assumptions: vec![
             "v_k is read as 'a queen on row k div n, column k mod n'".into(),
             "for n beyond the enumerable bound the model set is only probed, not compared".into(),
